@@ -8,6 +8,7 @@ type Step struct {
 	Node2   int      `json:"node2,omitempty"`
 	From    int      `json:"from,omitempty"` // wallet index; -(k+1) = wallet of node k
 	To      int      `json:"to,omitempty"`
+	ToText  string   `json:"to_text,omitempty"` // free-text receiver address instead of a wallet: b32, empty, lastvertex, vhash, huge
 	Cur     uint64   `json:"cur,omitempty"`
 	Sup     uint64   `json:"sup,omitempty"`
 	Data    int      `json:"data,omitempty"` // length of the data payload (contract)
